@@ -155,6 +155,10 @@ def decrypt7 (ep : Str) : Except Err Str :=
 def b64Rfc : List Nat :=
   "ABCDEFGHIJKLMNOPQRSTUVWXYZabcdefghijklmnopqrstuvwxyz0123456789+/".toList.map Char.toNat
 
+/-- the alphabet Cisco IOS uses in type 8/9 (and crypt(3) in `$1$`) hashes, written out independently -/
+def ciscoRef : List Nat :=
+  "./0123456789ABCDEFGHIJKLMNOPQRSTUVWXYZabcdefghijklmnopqrstuvwxyz".toList.map Char.toNat
+
 def b64Char (i : Nat) : Char := Char.ofNat (b64Rfc.getD (i % 64) 0)
 
 /-- `base64.b64encode(raw).decode()` -/
